@@ -9,21 +9,42 @@ const (
 // op: 0 Add(ws), 1 Remove(ws), 2 Route on a dynamic service, 3 RemoveRoute; router: 0 Curly, 1 JSR311; entry: 0 Dispatch, 1 ServeHTTP
 // target: 0 the request goes to the service being changed, 1 to another one, 2 OPTIONS request through the OPTIONS filter
 func H_C12(op, router, entry, target int) {
-	c := NewContainer()
-	c.Router(vRouter(router))
-	hits := 0
-	mk := func(root string) *WebService {
-		ws := new(WebService)
-		ws.Path(root)
-		ws.SetDynamicRoutes(true)
-		ws.Route(ws.GET("/r").To(func(req *Request, resp *Response) { hits++ }))
-		ws.Route(ws.GET("/s").To(func(req *Request, resp *Response) { hits++ }))
-		return ws
+	type world struct {
+		c           *Container
+		a, b, extra *WebService
+		hits        int
 	}
-	a, b := mk("/a"), mk("/b")
-	c.Add(a)
-	c.Add(b)
-	extra := mk("/c")
+	build := func() *world {
+		w := &world{c: NewContainer()}
+		w.c.Router(vRouter(router))
+		mk := func(root string) *WebService {
+			ws := new(WebService)
+			ws.Path(root)
+			ws.SetDynamicRoutes(true)
+			ws.Route(ws.GET("/r").To(func(req *Request, resp *Response) { w.hits++ }))
+			ws.Route(ws.GET("/s").To(func(req *Request, resp *Response) { w.hits++ }))
+			return ws
+		}
+		w.a, w.b = mk("/a"), mk("/b")
+		w.c.Add(w.a)
+		w.c.Add(w.b)
+		w.extra = mk("/c")
+		return w
+	}
+	mutate := func(w *world, route string) {
+		switch op {
+		case 0:
+			w.c.Add(w.extra)
+		case 1:
+			w.c.Remove(w.a)
+		case 2:
+			w.a.Route(w.a.GET(route).To(func(req *Request, resp *Response) {}))
+		case 3:
+			w.a.RemoveRoute("/a/s", "GET")
+		}
+	}
+	w := build()
+	c := w.c
 	path := "/a/r"
 	method := "GET"
 	if target == 1 {
@@ -43,18 +64,31 @@ func H_C12(op, router, entry, target int) {
 			c.ServeHTTP(rec, req)
 		}
 	})
-	verifSpawn(func() {
-		switch op {
-		case 0:
-			c.Add(extra)
-		case 1:
-			c.Remove(a)
-		case 2:
-			a.Route(a.GET("/x").To(func(req *Request, resp *Response) {}))
-		case 3:
-			a.RemoveRoute("/a/s", "GET")
-		}
-	})
+	verifSpawn(func() { mutate(w, "/x") })
 	verifRunThreads(vMsgRace12, vMsgStuck12)
 	verifCover("ran")
+	// sequential complement on a second, identical world (natively the threads above really changed the first one):
+	// a request to a service that is not being changed is answered the same before and after the change
+	// (together with race freedom: "as if no change were happening")
+	if target == 1 {
+		w2 := build()
+		serve := func() (int, int) {
+			before := w2.hits
+			r := vNewRec()
+			q := vReq{method: method, path: path}.http()
+			if entry == 0 {
+				w2.c.Dispatch(r, q)
+			} else {
+				w2.c.ServeHTTP(r, q)
+			}
+			return r.code(), w2.hits - before
+		}
+		s1, h1 := serve()
+		mutate(w2, "/x")
+		s2, h2 := serve()
+		verifObserveInt("status-before", s1)
+		verifObserveInt("status-after", s2)
+		verifAssert(s1 == s2 && h1 == h2 && h1 == 1, "C12: a request to a service that is not being changed is answered differently after the change")
+		verifCover("unrelated-compared")
+	}
 }
